@@ -3,12 +3,12 @@
 Require Extraction.
 Require Import ExtrOcamlBasic.
 From Coq Require Import NArith.
-From Mdns Require Import Res Bytes Utf8 Rec Wire WireOut Rfc1035 C02Spec Txt Cache Browser C03Spec BrowserSpec.
+From Mdns Require Import Res Bytes Utf8 Rec Wire WireOut Rfc1035 C02Spec Txt Cache Browser C03Spec BrowserSpec BrowserKnown.
 Extraction Language OCaml.
 Extraction "model.ml"
   Browser.run_history Browser.sort_events Browser.events_of Browser.channels_of Browser.questions_of
   WireOut.name_labels WireOut.labels_beq Wire.decode
   C03Spec.chk_C03 C03Spec.iter_dlvs C03Spec.out_ok C03Spec.wf_history
   BrowserSpec.viol_C04 BrowserSpec.viol_C05 BrowserSpec.chk_C04 BrowserSpec.chk_C05 BrowserSpec.obs_of BrowserSpec.ptr_targets_of
-  C02Spec.dotted
+  C02Spec.dotted BrowserKnown.known_browse_expiring
   N.eqb N.add N.mul N.land N.div N.modulo.
